@@ -49,7 +49,8 @@ class History:
 
 def run(ctx: core.Check):
     ctx.cov["rule"] = ("history = sequence of encrypt-and-generate calls with one key: same plaintext repeated / different "
-                       "plaintexts x one reused Encryptor / fresh objects / cmd_encrypt entry / fresh interpreter processes. "
+                       "plaintexts x one reused Encryptor / fresh objects / cmd_encrypt entry and real CLI processes writing into the same output "
+                       "directory (runs of identical firmware) / fresh interpreter processes. "
                        "Distinct & non-trivial = number of encryptions whose IV was compared with all earlier ones of the "
                        "history (every one after the first).")
     ctx.note("Use A: Encrypt_MC (fresh-generator assumption; published IV = used IV)")
@@ -90,7 +91,8 @@ def run(ctx: core.Check):
     h = History(tr, key, "cmd_encrypt.main/files")
     fw = d / "fw.bin"
     for i in range(120 if ctx.quick else 3000):
-        pt = b"constant firmware image" if i % 2 else b"firmware %d" % i
+        # runs of identical firmware into the SAME output directory (what an incremental build does) alternate with changes
+        pt = b"constant firmware image" if (i // 3) % 2 else b"firmware %d" % (i // 3)
         fw.write_bytes(pt)
         od = d / "encout"
         od.mkdir(exist_ok=True)
@@ -101,6 +103,20 @@ def run(ctx: core.Check):
         if i:
             ctx.nontriv(("cmd", i))
     ctx.sample({"history": "same-plaintext/one-object", "events": tr.events[:4]})
+    # the real CLI, one process per encryption, identical firmware, the SAME output directory still holding the previous artifacts
+    h = History(tr, key, "cli-processes/same-output-directory")
+    od = d / "cliout"
+    od.mkdir()
+    fw.write_bytes(b"identical firmware for every invocation")
+    for i in range(8 if ctx.quick else 150):
+        subprocess.run(core.cli_cmd("encrypt", "encrypt-and-generate", "--firmware", fw, "--key-name", "fwenc", "--key-id", "9", "--context", d / "keys",
+                                    "--hash-alg", "sha-256", "--kms-script", kms, "--encrypt-script", es, "--output-dir", od),
+                       cwd=d, env=core.cli_env(), capture_output=True, text=True)
+        h.add(fw.read_bytes(), (od / "suit_encryption_info.bin").read_bytes() if (od / "suit_encryption_info.bin").exists() else b"",
+              (od / "encrypted_content.bin").read_bytes() if (od / "encrypted_content.bin").exists() else b"")
+        total += 1
+        if i:
+            ctx.nontriv(("cli", i))
     # cross-process histories
     procs = 24 if ctx.quick else 2000
     per = 5
